@@ -411,6 +411,13 @@ func (s *Skiplist) deleteNode(n *Node, cmp CompareFn, buf *ActionBuffer, sts *St
 // and after this function call
 func (s *Skiplist) GetRangeSplitItems(nways int) []unsafe.Pointer {
 	var deleted bool
+
+	// A single range needs no split item. The bound on the number of split
+	// items below (nways-1) cannot cut the walk off for nways == 1, and the
+	// node counts used to space them lag behind concurrent inserts.
+	if nways <= 1 {
+		return nil
+	}
 repeat:
 	var itms []unsafe.Pointer
 	var finished bool
